@@ -115,7 +115,7 @@ fn encode_all_storages(ctx: &Ctx, s: &Shape, v: &Val, plain: &[u8], order: u64, 
         let buf = a.flush_end(n);
         trap(|| postcard::to_slice_cobs(&d, buf).map(|o| o.to_vec()))
     });
-    calls.fetch_add(3, Ordering::Relaxed);
+    calls.fetch_add(4, Ordering::Relaxed);
     match r {
         Ok(Ok(o)) => {
             if let Err(e) = check_frame(plain, &o) {
@@ -144,6 +144,14 @@ fn encode_all_storages(ctx: &Ctx, s: &Shape, v: &Val, plain: &[u8], order: u64, 
             }
         }
         other => ctx.violation("cobs-encode-allocvec", format!("{:?}", other.map(|r| r.map(|o| o.len()))), order, case()),
+    }
+    match trap(|| postcard::to_stdvec_cobs(&d)) {
+        Ok(Ok(o)) => {
+            if let Err(e) = check_frame(plain, &o) {
+                ctx.violation("cobs-encode-stdvec", e, order, case());
+            }
+        }
+        other => ctx.violation("cobs-encode-stdvec", format!("{:?}", other.map(|r| r.map(|o| o.len()))), order, case()),
     }
     // heapless
     let r = if n <= 16 {
